@@ -172,6 +172,6 @@ static void register_properties()
   C04_PAIRS(X)
 #undef X
   pbt::set_extra("instances", "{\"enumerated\":" + std::to_string(mtable().size()) + ",\"exercised\":0}");
-  pbt::property<MCase>("lift_" C04_MIXNAME, (int)mtable().size() * 40, mgen(), mrun);
+  pbt::property<MCase>("lift_" C04_MIXNAME, (int)mtable().size() * 240, mgen(), mrun);
 }
 PBT_MAIN("C04_" C04_MIXNAME)
